@@ -156,6 +156,17 @@ func tryRecursiveValidate(val reflect.Value, opts *options, validators []validat
 		return nil
 	}
 
+	if t.Kind() == reflect.Ptr && opts != nil && opts.validating != nil {
+		// a default that points back to a value it is part of is walked once
+		// (the tag validators of the field holding the pointer have run above)
+		p := val.Pointer()
+		if _, below := opts.validating[p]; below {
+			return nil
+		}
+		opts.validating[p] = struct{}{}
+		defer delete(opts.validating, p)
+	}
+
 	var err error
 	switch chaseValue(val).Kind() {
 	case reflect.Struct:
